@@ -313,8 +313,15 @@ class UnitOfWork(object):
         session = sa.orm.object_session(version_obj)
         tx_column = tx_column_name(version_obj)
 
+        mapped_tables = sa.inspect(version_obj.__class__).tables
         for class_ in version_obj.__class__.__mro__:
-            if class_ in self.manager.parent_class_map:
+            if (
+                class_ in self.manager.parent_class_map and
+                # the table of a parent class holds rows of this object only
+                # with joined or single table inheritance; a concrete class
+                # has a key space of its own
+                class_.__table__ in mapped_tables
+            ):
                 # Each table of an inheritance hierarchy has a chain of its
                 # own: the previous row is looked up and closed per table,
                 # not through version objects (which span all tables of
